@@ -142,6 +142,9 @@ package nodenumaresource
 //@   ensures #refcount_in: !old(has(n.allocatedPods, request.UID)) ==> (forall c int :: {has(n.allocatedCPUs, c)} has(request.CPUSet.elems, c) ==> has(n.allocatedCPUs, c) && n.allocatedCPUs[c].RefCount == old(refc(n, c)) + 1)
 //@   ensures #refcount_out: !old(has(n.allocatedPods, request.UID)) ==> (forall c int :: {has(n.allocatedCPUs, c)} !has(request.CPUSet.elems, c) ==> has(n.allocatedCPUs, c) == old(has(n.allocatedCPUs, c)) && n.allocatedCPUs[c].RefCount == old(n.allocatedCPUs[c].RefCount))
 //@   ensures #refcOK: refcOK(n)
+//@   ensures #entry: !old(has(n.allocatedPods, request.UID)) ==> n.allocatedPods[request.UID].UID == request.UID && n.allocatedPods[request.UID].CPUSet.elems == request.CPUSet.elems && n.allocatedPods[request.UID].CPUExclusivePolicy == request.CPUExclusivePolicy && n.allocatedPods[request.UID].NUMANodeResources == request.NUMANodeResources && n.allocatedPods[request.UID].Namespace == request.Namespace && n.allocatedPods[request.UID].Name == request.Name
+//@   ensures #otherentries: forall u types.UID :: u != request.UID ==> has(n.allocatedPods, u) == old(has(n.allocatedPods, u)) && n.allocatedPods[u].CPUSet.elems == old(n.allocatedPods[u].CPUSet.elems)
+//@   modifies contents(n.allocatedPods), contents(n.allocatedCPUs), contents(n.sharedNode), contents(n.singleNUMANode), allmaps(n.sharedNode[0]), contents(n.allocatedResources), all(NUMANodeResource).Resources, all(NUMANodeResource).Node, allelems(cpuset.scratchInts())
 //@   loop 1 invariant #idx: 0 <= $i && $i <= len($range) && n.allocatedCPUs == old(n.allocatedCPUs)
 //@   loop 1 invariant #cnt1: forall c int :: {has(n.allocatedCPUs, c)} (exists j int :: 0 <= j && j < $i && $range[j] == c) ==> has(n.allocatedCPUs, c) && n.allocatedCPUs[c].RefCount == old(refc(n, c)) + 1
 //@   loop 1 invariant #dist: forall j int, k int :: {$range[j], $range[k]} 0 <= j && j < k && k < len($range) ==> $range[j] != $range[k]
@@ -162,6 +165,8 @@ package nodenumaresource
 //@   ensures #refcount_in: old(has(n.allocatedPods, podUID)) ==> (forall c int :: {has(n.allocatedCPUs, c)} old(has(cpus, c)) ==> refc(n, c) == max0(old(refc(n, c)) - 1) && (has(n.allocatedCPUs, c) <==> old(refc(n, c)) >= 2))
 //@   ensures #refcount_out: old(has(n.allocatedPods, podUID)) ==> (forall c int :: {has(n.allocatedCPUs, c)} !old(has(cpus, c)) ==> has(n.allocatedCPUs, c) == old(has(n.allocatedCPUs, c)) && n.allocatedCPUs[c].RefCount == old(n.allocatedCPUs[c].RefCount))
 //@   ensures #refcOK: refcOK(n)
+//@   ensures #otherentries: forall u types.UID :: u != podUID ==> n.allocatedPods[u].CPUSet.elems == old(n.allocatedPods[u].CPUSet.elems)
+//@   modifies contents(n.allocatedPods), contents(n.allocatedCPUs), allmaps(n.sharedNode[0]), all(NUMANodeResource).Resources, allelems(cpuset.scratchInts())
 //@   loop 1 invariant #pods: n.allocatedPods == old(n.allocatedPods) && n.allocatedCPUs == old(n.allocatedCPUs) && !has(n.allocatedPods, podUID) && (forall u types.UID :: u != podUID ==> has(n.allocatedPods, u) == old(has(n.allocatedPods, u)))
 //@   loop 1 invariant #idx: 0 <= $i && $i <= len($range)
 //@   loop 1 invariant #cnt1: forall c int :: {has(n.allocatedCPUs, c)} (exists j int :: 0 <= j && j < $i && $range[j] == c) ==> refc(n, c) == max0(old(refc(n, c)) - 1) && (has(n.allocatedCPUs, c) <==> old(refc(n, c)) >= 2)
@@ -200,3 +205,172 @@ package nodenumaresource
 //@   loop 2 invariant allocatableCPUs != nil && fresh(allocatableCPUs) && allocatableCPUs != topology.CPUDetails
 //@   loop 2 invariant forall c int :: {has(allocatableCPUs, c)} has(allocatableCPUs, c) <==> (has(topology.CPUDetails, c) && has(availableCPUs.elems, c))
 //@   loop 2 invariant forall c int :: {allocatableCPUs[c]} has(allocatableCPUs, c) ==> allocatableCPUs[c].CPUID == c
+
+// ---- the sort comparator of tryBestToDistributeEvenly ----
+// The hinted nodes are ordered by their free amount of the resource, compared as exact quantities (1800m < 2 and
+// 1200m < 1800m; no rounding to whole units): less(i, j) <==> free(node at position i) < free(node at position j).
+//@ func tryBestToDistributeEvenly$1 [C06]
+//@   ensures #byfree: result <==> deref($fv_totalAvailable)[deref($fv_sortedNUMANodes)[i]][corev1.ResourceName(deref($fv_resourceName))] < deref($fv_totalAvailable)[deref($fv_sortedNUMANodes)[j]][corev1.ResourceName(deref($fv_resourceName))]
+//@   modifies nothing
+
+// ---- availability query ----
+// getAvailableCPUs is a read-only query of the ledger: crediting the preferred CPUs happens on a private copy.
+// The live ledger (domain and every entry) and the pod table are unchanged. (The functional result is not specified.)
+//@ func (CPUDetails).Clone [C06]
+//@   ensures #fresh: result != nil && fresh(result)
+//@   ensures #copy: forall c int :: {has(result, c)} {result[c]} has(result, c) == has(d, c) && result[c] == d[c]
+//@   modifies nothing
+//@   loop 1 invariant c != nil && fresh(c)
+//@   loop 1 invariant forall k int :: {has(c, k)} has(c, k) <==> ($seen[k] && has(d, k))
+//@   loop 1 invariant forall k int :: {c[k]} has(c, k) ==> c[k] == d[k]
+
+//@ func (*NodeAllocation).getAvailableCPUs [C06]
+//@   requires n != nil && n.allocatedCPUs != nil && cpuTopology != nil
+//@   ensures #ledger: n.allocatedCPUs == old(n.allocatedCPUs) && (forall c int :: {has(n.allocatedCPUs, c)} {n.allocatedCPUs[c]} has(n.allocatedCPUs, c) == old(has(n.allocatedCPUs, c)) && n.allocatedCPUs[c] == old(n.allocatedCPUs[c]))
+//@   ensures #pods: n.allocatedPods == old(n.allocatedPods) && (forall u types.UID :: has(n.allocatedPods, u) == old(has(n.allocatedPods, u)))
+//@   loop 1 invariant #copy: allocateInfo != nil && fresh(allocateInfo)
+//@   loop 2 invariant #copy: allocateInfo != nil && fresh(allocateInfo)
+
+// ==== Property C19 (rebuild half): the allocation persisted on a pod is replayed into the ledger unchanged ====
+// The codec half of C19 is ASSUMED: extension.GetResourceStatus / GetResourceSpec are `pure` getters of the annotation
+// map ("what is persisted"), see /verif/lib/C19.spec.
+
+// deletePod: an assigned pod releases exactly its own entry (its node, its UID), once; an unassigned pod does nothing.
+//@ func (*podEventHandler).deletePod [C19]
+//@   requires c != nil && pod != nil
+//@   assert before call Release: #own: $arg0 == pod.Spec.NodeName && $arg1 == pod.ObjectMeta.UID
+//@   ensures #iff: calls("Release") == (pod.Spec.NodeName != "" ? 1 : 0)
+//@   ensures #noupdate: calls("Update") == 0
+//@   modifies nothing
+
+// updatePod (add event: oldPod == nil; update event: oldPod = previous object). What is replayed into the ledger is a
+// function of the NEW object alone (oldPod is only read when the new object has no node), hence an update event that
+// carries the same allocation issues the same Update call as the add event did (idempotent input to the cache).
+//   #persisted  the Update call carries the pod's node, UID / namespace / name, the CPU set decoded from the persisted
+//               status (member relation c12_in of cpuset.Parse), the persisted exclusive policy, and the persisted
+//               per-NUMA amounts (same length, same node ids, the very same resource lists, same order);
+//   #when       Update is only issued for an assigned, non-terminated pod whose annotations decode, and never after a Release;
+//   #reaches / #restored  conversely every assigned, non-terminated pod whose three decoders succeed (#reaches: each is
+//               called exactly once as long as the previous one succeeded) and whose allocation is non-empty IS replayed;
+//   #unassigned / #terminated: Release (of the old object resp. of the pod itself) instead, never both.
+//@ func (*podEventHandler).updatePod [C19]
+//@   requires c != nil && pod != nil
+//@   assert before call Update: #persisted: $arg0 == pod.Spec.NodeName && $arg1 != nil && $arg1.UID == pod.ObjectMeta.UID && $arg1.Namespace == pod.ObjectMeta.Namespace && $arg1.Name == pod.ObjectMeta.Name && $arg1.CPUExclusivePolicy == lastresult("GetResourceSpec", 0).PreferredCPUExclusivePolicy && (forall k int :: has($arg1.CPUSet.elems, k) <==> c12_in(lastresult("GetResourceStatus", 0).CPUSet, k))
+//@   assert before call Update: #numa: len($arg1.NUMANodeResources) == len(lastresult("GetResourceStatus", 0).NUMANodeResources) && (forall j int :: 0 <= j && j < len($arg1.NUMANodeResources) ==> $arg1.NUMANodeResources[j].Node == int(lastresult("GetResourceStatus", 0).NUMANodeResources[j].Node) && $arg1.NUMANodeResources[j].Resources == lastresult("GetResourceStatus", 0).NUMANodeResources[j].Resources)
+//@   assert before call Update: #when1: pod.Spec.NodeName != "" && !util.IsPodTerminated(pod)
+//@   assert before call Update: #when2: lastresult("GetResourceStatus", 1) == nil && lastresult("GetResourceSpec", 1) == nil
+//@   assert before call Update: #when3: c12_cpusOK(lastresult("GetResourceStatus", 0).CPUSet)
+//@   assert before call Update: #when4: calls("Release") == 0 && calls("deletePod") == 0
+//@   assert before call Update: #nonempty: len(lastresult("GetResourceStatus", 0).NUMANodeResources) > 0 || (exists k int :: c12_in(lastresult("GetResourceStatus", 0).CPUSet, k))
+//@   assert before call Release: #oldobject: oldPod != nil && $arg0 == oldPod.Spec.NodeName && $arg1 == oldPod.ObjectMeta.UID && pod.Spec.NodeName == ""
+//@   assert before call deletePod: #self: $arg0 == pod
+//@   ensures #unassigned: pod.Spec.NodeName == "" ==> calls("Update") == 0 && calls("deletePod") == 0 && calls("Release") == (oldPod != nil && oldPod.Spec.NodeName != "" ? 1 : 0)
+//@   ensures #terminated: pod.Spec.NodeName != "" && util.IsPodTerminated(pod) ==> calls("Update") == 0 && calls("Release") == 0 && calls("deletePod") == 1
+//@   ensures #assigned: pod.Spec.NodeName != "" && !util.IsPodTerminated(pod) ==> calls("Release") == 0 && calls("deletePod") == 0 && calls("Update") <= 1
+//@   ensures #reaches: pod.Spec.NodeName != "" && !util.IsPodTerminated(pod) ==> calls("GetResourceStatus") == 1 && (lastresult("GetResourceStatus", 1) == nil ==> calls("GetResourceSpec") == 1 && (lastresult("GetResourceSpec", 1) == nil ==> calls("Parse") == 1))
+//@   ensures #restored: calls("Parse") == 1 && lastresult("Parse", 1) == nil && (len(lastresult("GetResourceStatus", 0).NUMANodeResources) > 0 || (exists k int :: c12_in(lastresult("GetResourceStatus", 0).CPUSet, k))) ==> calls("Update") == 1
+//@   modifies nothing
+//@   loop 1 invariant 0 <= $i && $i <= len(resourceStatus.NUMANodeResources) && allocation != nil && fresh(allocation) && len(allocation.NUMANodeResources) == $i
+//@   loop 1 invariant forall j int :: 0 <= j && j < $i ==> allocation.NUMANodeResources[j].Node == int(resourceStatus.NUMANodeResources[j].Node) && allocation.NUMANodeResources[j].Resources == resourceStatus.NUMANodeResources[j].Resources
+
+// Informer wrappers: every pod event is forwarded unchanged (add: no old object; update: old and new object; delete:
+// the object itself or the pod inside a DeletedFinalStateUnknown tombstone); anything else is dropped.
+//@ func (*podEventHandler).OnAdd [C19]
+//@   requires c != nil
+//@   requires typeis(obj, *corev1.Pod) ==> payload(obj, *corev1.Pod) != nil
+//@   assert before call updatePod: #fwd: $arg0 == nil && typeis(obj, *corev1.Pod) && $arg1 == payload(obj, *corev1.Pod)
+//@   ensures #iff: calls("updatePod") == (typeis(obj, *corev1.Pod) ? 1 : 0) && calls("deletePod") == 0
+//@   modifies nothing
+
+//@ func (*podEventHandler).OnUpdate [C19]
+//@   requires c != nil
+//@   requires typeis(newObj, *corev1.Pod) ==> payload(newObj, *corev1.Pod) != nil
+//@   assert before call updatePod: #fwd: typeis(oldObj, *corev1.Pod) && typeis(newObj, *corev1.Pod) && $arg0 == payload(oldObj, *corev1.Pod) && $arg1 == payload(newObj, *corev1.Pod)
+//@   ensures #iff: calls("updatePod") == (typeis(oldObj, *corev1.Pod) && typeis(newObj, *corev1.Pod) ? 1 : 0) && calls("deletePod") == 0
+//@   modifies nothing
+
+//@ spec func isTombPod(obj any) bool = typeis(obj, cache.DeletedFinalStateUnknown) && typeis(payload(obj, cache.DeletedFinalStateUnknown).Obj, *corev1.Pod)
+//@ spec func deletedPod(obj any) *corev1.Pod = typeis(obj, *corev1.Pod) ? payload(obj, *corev1.Pod) : (isTombPod(obj) ? payload(payload(obj, cache.DeletedFinalStateUnknown).Obj, *corev1.Pod) : nil)
+//@ func (*podEventHandler).OnDelete [C19]
+//@   requires c != nil
+//@   assert before call deletePod: #fwd: $arg0 == deletedPod(obj) && $arg0 != nil
+//@   ensures #iff: calls("deletePod") == (deletedPod(obj) != nil ? 1 : 0) && calls("updatePod") == 0
+//@   modifies nothing
+
+// ---- the ledger side of a replayed event ----
+//@ spec func naOK(n *NodeAllocation) bool = n != nil && n.allocatedPods != nil && n.allocatedCPUs != nil && n.allocatedResources != nil && n.sharedNode != nil && n.singleNUMANode != nil
+
+// NodeAllocation.update = release(the entry recorded under the UID, if any) then addPodAllocation(the new allocation).
+// (Built on the C06 contracts of release / addPodAllocation: CPU reference counts, pod key set, stored entry.)
+//   #entry       afterwards the pod is recorded and its entry is exactly the replayed allocation;
+//   #refcount    every CPU: count = max0(old count - [pod was recorded and held the CPU]) + [new allocation holds the CPU];
+//   #taken       every CPU of the replayed allocation has a ledger entry with a positive count (it is not free);
+//   #firstadd    first event after a restart (pod unknown): each of its CPUs gains exactly one reference, nothing else moves;
+//   #idempotent  duplicate add / update event with the same CPU set for a recorded pod whose CPUs are counted (ledger
+//                invariant: count = number of recorded holders; a cardinality the spec language cannot state, so it enters
+//                as the hypothesis "each CPU of the recorded entry has count >= 1"): no count and no ledger entry changes,
+//                the pod key set is the same - no double counting.
+// NOT COVERED: the per-NUMA amounts (allocatedResources[..].Resources): release / addPodAllocation have no clause on them.
+//@ spec func heldBy(n *NodeAllocation, u types.UID, k int) bool = has(n.allocatedPods, u) && has(n.allocatedPods[u].CPUSet.elems, k)
+//@ func (*NodeAllocation).update [C19]
+//@   requires naOK(n) && refcOK(n) && allocation != nil && cpuTopology != nil
+//@   requires #catalogue: cpuTopology.CPUDetails != n.allocatedCPUs && (forall k int :: cpuTopology.CPUDetails[k].RefCount == 0)
+//@   assert before call release: #olduid: $recv == n && $arg0 == allocation.UID && calls("addPodAllocation") == 0
+//@   assert before call addPodAllocation: #newalloc: $recv == n && $arg0 == allocation && $arg1 == cpuTopology && calls("release") == 1
+//@   ensures #order: calls("release") == 1 && calls("addPodAllocation") == 1
+//@   ensures #recorded: has(n.allocatedPods, allocation.UID)
+//@   ensures #entry: n.allocatedPods[allocation.UID].UID == allocation.UID && n.allocatedPods[allocation.UID].Namespace == allocation.Namespace && n.allocatedPods[allocation.UID].Name == allocation.Name && n.allocatedPods[allocation.UID].CPUSet.elems == allocation.CPUSet.elems && n.allocatedPods[allocation.UID].CPUExclusivePolicy == allocation.CPUExclusivePolicy && n.allocatedPods[allocation.UID].NUMANodeResources == allocation.NUMANodeResources
+//@   ensures #others: forall u types.UID :: u != allocation.UID ==> has(n.allocatedPods, u) == old(has(n.allocatedPods, u)) && n.allocatedPods[u].CPUSet.elems == old(n.allocatedPods[u].CPUSet.elems)
+//@   ensures #refcount: forall k int :: {refc(n, k)} refc(n, k) == max0(old(refc(n, k)) - (old(heldBy(n, allocation.UID, k)) ? 1 : 0)) + (has(allocation.CPUSet.elems, k) ? 1 : 0)
+//@   ensures #taken: forall k int :: {has(n.allocatedCPUs, k)} has(allocation.CPUSet.elems, k) ==> has(n.allocatedCPUs, k) && n.allocatedCPUs[k].RefCount >= 1
+//@   ensures #firstadd: !old(has(n.allocatedPods, allocation.UID)) ==> (forall k int :: {refc(n, k)} refc(n, k) == old(refc(n, k)) + (has(allocation.CPUSet.elems, k) ? 1 : 0))
+//@   ensures #idempotent: old(has(n.allocatedPods, allocation.UID)) && (forall k int :: old(has(n.allocatedPods[allocation.UID].CPUSet.elems, k)) <==> has(allocation.CPUSet.elems, k)) && (forall k int :: has(allocation.CPUSet.elems, k) ==> old(refc(n, k)) >= 1) ==> (forall k int :: {has(n.allocatedCPUs, k)} has(n.allocatedCPUs, k) == old(has(n.allocatedCPUs, k)) && refc(n, k) == old(refc(n, k))) && (forall u types.UID :: has(n.allocatedPods, u) == old(has(n.allocatedPods, u)))
+//@   ensures #refcOK: refcOK(n) && naOK(n)
+//@   modifies contents(n.allocatedPods), contents(n.allocatedCPUs), contents(n.sharedNode), contents(n.singleNUMANode), allmaps(n.sharedNode[0]), contents(n.allocatedResources), all(NUMANodeResource).Resources, all(NUMANodeResource).Node, allelems(cpuset.scratchInts())
+
+// ---- resourceManager: the per-node ledgers behind the ResourceManager interface ----
+// Every cached ledger is well-formed (NewNodeAllocation is the only constructor; release / addPodAllocation keep refcOK).
+//@ spec func rmOK(c *resourceManager) bool = c != nil && c.nodeAllocations != nil && (forall name string :: {c.nodeAllocations[name]} c.nodeAllocations[name] != nil ==> naOK(c.nodeAllocations[name]) && refcOK(c.nodeAllocations[name]))
+// The CPU topology the topology manager holds for a node (nil / zero when the node has no NodeResourceTopology yet).
+//@ spec func topoOf(c *resourceManager, nodeName string) *CPUTopology = c.topologyOptionsManager.GetTopologyOptions(nodeName).CPUTopology
+// A CPU topology is the read-only catalogue of a node's CPUs (see the note at addPodAllocation): its CPUDetails carry
+// RefCount 0 and are not the allocatedCPUs map of a cached ledger.
+//@ spec func catalogueOK(c *resourceManager, t *CPUTopology) bool = (forall k int :: {t.CPUDetails[k]} t.CPUDetails[k].RefCount == 0) && (forall name string :: {c.nodeAllocations[name]} c.nodeAllocations[name] != nil ==> t.CPUDetails != c.nodeAllocations[name].allocatedCPUs)
+
+// A freshly started scheduler starts from EMPTY ledgers: the first event for a node creates one with no pod and no CPU entry.
+//@ func (*resourceManager).getOrCreateNodeAllocation [C19]
+//@   requires c != nil && c.nodeAllocations != nil
+//@   ensures #cached: result != nil && c.nodeAllocations[nodeName] == result && has(c.nodeAllocations, nodeName)
+//@   ensures #same: old(c.nodeAllocations[nodeName]) != nil ==> result == old(c.nodeAllocations[nodeName])
+//@   ensures #new: old(c.nodeAllocations[nodeName]) == nil ==> fresh(result) && naOK(result) && fresh(result.allocatedCPUs) && fresh(result.allocatedPods) && (forall u types.UID :: !has(result.allocatedPods, u)) && (forall k int :: !has(result.allocatedCPUs, k))
+//@   ensures #others: forall name string :: name != nodeName ==> c.nodeAllocations[name] == old(c.nodeAllocations[name]) && has(c.nodeAllocations, name) == old(has(c.nodeAllocations, name))
+//@   modifies contents(c.nodeAllocations)
+
+// validTopo: what (*CPUTopology).IsValid decides.
+//@ spec func validTopo(t *CPUTopology) bool = t != nil && t.NumSockets != 0 && t.NumNodes != 0 && t.NumCores != 0 && t.NumCPUs != 0
+
+// resourceManager.Update(node, allocation): with a valid CPU topology for the node, NodeAllocation.update runs exactly once,
+// on THE node's ledger (created empty if the node is new), with the caller's allocation object and the node's topology;
+// afterwards the pod is recorded there with exactly the replayed entry and each of its CPUs is taken (#recorded).
+//   #never_dropped is what C19 demands ("no CPU ... taken before the restart is considered free after it"): every replayed
+//   allocation reaches the ledger. The code drops it when the node has no valid CPU topology at that moment -> see report.
+//@ func (*resourceManager).Update [C19]
+//@   requires rmOK(c) && allocation != nil
+//@   requires #catalogue: validTopo(topoOf(c, nodeName)) ==> catalogueOK(c, topoOf(c, nodeName))
+//@   let topo = topoOf(c, nodeName)
+//@   assert before call update: #replay: $recv == c.nodeAllocations[nodeName] && $arg0 == allocation && $arg1 == topo && validTopo(topo) && (old(c.nodeAllocations[nodeName]) != nil ==> $recv == old(c.nodeAllocations[nodeName]))
+//@   ensures #iff: calls("update") == (validTopo(topo) ? 1 : 0)
+//@   ensures #recorded: validTopo(topo) ==> c.nodeAllocations[nodeName] != nil && has(c.nodeAllocations[nodeName].allocatedPods, allocation.UID) && c.nodeAllocations[nodeName].allocatedPods[allocation.UID].CPUSet.elems == allocation.CPUSet.elems && c.nodeAllocations[nodeName].allocatedPods[allocation.UID].NUMANodeResources == allocation.NUMANodeResources && (forall k int :: {has(c.nodeAllocations[nodeName].allocatedCPUs, k)} has(allocation.CPUSet.elems, k) ==> has(c.nodeAllocations[nodeName].allocatedCPUs, k) && c.nodeAllocations[nodeName].allocatedCPUs[k].RefCount >= 1)
+//@   ensures #fresh_node: validTopo(topo) && old(c.nodeAllocations[nodeName]) == nil ==> (forall k int :: {refc(c.nodeAllocations[nodeName], k)} refc(c.nodeAllocations[nodeName], k) == (has(allocation.CPUSet.elems, k) ? 1 : 0))
+//@   ensures #inv: rmOK(c)
+//@   ensures #never_dropped: calls("update") == 1
+//@   ensures #untouched: calls("update") == 0 ==> (forall name string :: old(c.nodeAllocations[name]) != nil ==> c.nodeAllocations[name] == old(c.nodeAllocations[name]))
+
+// resourceManager.Release(node, uid): NodeAllocation.release runs exactly once on the node's ledger for that UID; afterwards
+// the pod has no entry there.
+//@ func (*resourceManager).Release [C19]
+//@   requires rmOK(c)
+//@   assert before call release: #own: $recv == c.nodeAllocations[nodeName] && $arg0 == podUID && (old(c.nodeAllocations[nodeName]) != nil ==> $recv == old(c.nodeAllocations[nodeName]))
+//@   ensures #once: calls("release") == 1 && calls("update") == 0
+//@   ensures #gone: c.nodeAllocations[nodeName] != nil && !has(c.nodeAllocations[nodeName].allocatedPods, podUID)
+//@   ensures #inv: rmOK(c)
